@@ -51,7 +51,17 @@ impl<T: Qcow2IoOps> Qcow2Dev<T> {
         F: FnOnce(&mut Qcow2Header),
     {
         let buf = h.serialize_to_buf()?;
-        if let Err(err) = self.call_write(0, &buf).await {
+
+        // the backend is only given block aligned offset, length and buffer:
+        // pad the serialized header with zeros up to the block size, which
+        // never exceeds the header cluster
+        let bs = 1usize << self.info.block_size_shift;
+        let len = (buf.len() + bs - 1) & !(bs - 1);
+        let mut io_buf = crate::helpers::Qcow2IoBuf::<u8>::new(len);
+        io_buf.zero_buf();
+        io_buf[..buf.len()].copy_from_slice(&buf);
+
+        if let Err(err) = self.call_write(0, &io_buf).await {
             rollback(h);
             return Err(err);
         }
